@@ -17,16 +17,16 @@ import (
 func mempoolTxInfo() mempool.TxInfo { return mempool.TxInfo{} }
 
 type signRec struct {
-	inc     int
-	h       int64
-	r       int32
-	typ     int // 1 prevote 2 precommit 32 proposal
-	block   string
-	pol     int32
-	ts      int64
-	sig     string
-	step    int // op index
-	dup     bool
+	inc   int
+	h     int64
+	r     int32
+	typ   int // 1 prevote 2 precommit 32 proposal
+	block string
+	pol   int32
+	ts    int64
+	sig   string
+	step  int // op index
+	dup   bool
 }
 
 // monitor holds the oracles of the consensus-network simulation.
@@ -47,8 +47,8 @@ type monitor struct {
 
 	// C02: prevotes each node has been given, per height/round/value, by validator address
 	recv     map[int]map[string]map[string]bool // node -> "h/r/blockkey" -> set of validator addresses
-	vals     map[int64]*types.ValidatorSet        // height -> validator set
-	signSeen map[int]int                         // node -> number of sign records already judged
+	vals     map[int64]*types.ValidatorSet      // height -> validator set
+	signSeen map[int]int                        // node -> number of sign records already judged
 
 	// C06: state bytes per height (first replica) for the cross-replica comparison
 	stateBytes map[int64][]byte
@@ -63,13 +63,13 @@ type monitor struct {
 }
 
 type c05state struct {
-	pos       int   // journal entries consumed
-	last      int64 // last committed height (0 = none)
-	inBlock   bool
-	curH      int64
-	curInc    int
-	curTxs    []string
-	endSeen   bool
+	pos     int   // journal entries consumed
+	last    int64 // last committed height (0 = none)
+	inBlock bool
+	curH    int64
+	curInc  int
+	curTxs  []string
+	endSeen bool
 }
 
 func newMonitor(s *sim) *monitor {
@@ -115,8 +115,8 @@ func (m *monitor) onByzProposal(p *byzProposal) {
 		m.invalid[bidStr(p.prop.BlockID)] = p.mut
 	}
 }
-func (m *monitor) onDeliverProposal(n *simNode, p *types.Proposal) {}
-func (m *monitor) onDeliverPart(n *simNode, h int64, p *types.Part)  {}
+func (m *monitor) onDeliverProposal(n *simNode, p *types.Proposal)  {}
+func (m *monitor) onDeliverPart(n *simNode, h int64, p *types.Part) {}
 func (m *monitor) onDeliverVote(n *simNode, v *types.Vote) {
 	if v.Type != tmproto.PrevoteType {
 		return
